@@ -361,7 +361,7 @@ def replay_histories(run, n, hist, rng):
         if e["k"] == "point":
             pts[(tuple(e["x"]), e["chart"])] = e
         else:
-            groups.setdefault((e["chart"], tuple(e["qs"])), []).append(tuple(e["x"]))
+            groups.setdefault((e["chart"], tuple(e["qs"])), []).append((tuple(e["x"]), e.get("at")))
     if not groups:
         raise core.MachineryFailure("HypPoints.tla (history machine) emitted no history")
     origin = H.Point.get_origin(n)
@@ -372,17 +372,25 @@ def replay_histories(run, n, hist, rng):
             return np.asarray((out @ origin).proj_data, float)
         return np.asarray(out, float)
 
-    def execute(xs, chart, qs, unit):
-        """returns None or (clause, step, detail)"""
-        es = [pts[(x, chart)] for x in xs]
-        spec_c = np.array([rat(e["c"]) for e in es])
-        ideal = np.array([e["ideal"] for e in es])
-        tols = np.where(ideal, 2e-7, TOL)
-        zero_tol = np.maximum(1e-7, np.sqrt(32 * 2.3e-16 * np.array([e["cond"][0] / e["cond"][1] for e in es])))
-        given = spec_c[0].copy() if unit else spec_c.copy()       # the caller's array, handed over as it is
+    def execute(xs, chart, qs, unit, ats):
+        """returns None or (clause, step, detail); ats[i][step] = the point object i holds after that step (spec)"""
+        def table(es):
+            ideal = np.array([e["ideal"] for e in es])
+            return dict(es=es, c=np.array([rat(e["c"]) for e in es]), tols=np.where(ideal, 2e-7, TOL),
+                        zero_tol=np.maximum(1e-7, np.sqrt(32 * 2.3e-16 * np.array([e["cond"][0] / e["cond"][1] for e in es]))))
+        cur = table([pts[(x, chart)] for x in xs])
+        given = cur["c"][0].copy() if unit else cur["c"].copy()       # the caller's array, handed over as it is
         obj = H.Point(given, model=chart)
-        held = []
+        held, arrays = [], [(given, cur["c"], chart)]
         for step, q in enumerate(qs):
+            if q.startswith("set:"):
+                # the live object is moved through the setter of a model (HypPoints.tla, Assign)
+                chart = q[4:]
+                cur = table([pts[(tuple(a[step]), chart)] for a in ats])
+                given = cur["c"][0].copy() if unit else cur["c"].copy()
+                arrays.append((given, cur["c"], chart))
+                obj.coords(chart, given)
+                continue
             if q in ("projective", "klein", "hyperboloid", "poincare", "halfspace"):
                 out = obj.coords(q)
             elif q == "dist_origin":
@@ -391,9 +399,10 @@ def replay_histories(run, n, hist, rng):
                 out = obj.distance(H.Point(given, model=chart))
             else:
                 out = obj.origin_to()
-            held.append((q, out))
-            # everything handed out so far, and the caller's own array, against the spec's values
-            for j, (qj, oj) in enumerate(held):
+            held.append((q, out, cur, step))
+            # everything handed out so far, and the caller's own arrays, against the spec's values
+            for (qj, oj, tj, j) in held:
+                es = tj["es"]
                 want = np.array([rat(e["vals"][qj]) for e in es])
                 got = value(qj, oj)
                 got = got.reshape(len(es), -1) if got.size == want.size else got
@@ -401,37 +410,40 @@ def replay_histories(run, n, hist, rng):
                     dd = got.reshape(-1)
                     ok = np.isfinite(dd) & (dd >= 0) & (np.abs(np.cosh(dd) - want[:, 0]) <= 1e-9 * want[:, 0])
                     if qj == "dist_rebuilt":
-                        ok &= dd <= zero_tol
+                        ok &= dd <= tj["zero_tol"]
                 elif qj == "origin_to":
                     ok = got.shape == want.shape and proj_equal(got, want, 1e-8)
                 else:
-                    ok = coords_equal(qj, got, want, tols) if got.shape == want.shape else np.zeros(len(es), bool)
+                    ok = coords_equal(qj, got, want, tj["tols"]) if got.shape == want.shape else np.zeros(len(es), bool)
                 ok = np.atleast_1d(ok)
                 if not ok.all():
                     i = int(np.nonzero(~ok)[0][0])
                     clause = "history.query_value" if j == step else "history.handed_out_value_changed_later"
-                    return (clause, step, dict(x=list(xs[i]), query=qj, asked_at_step=j, now_at_step=step, value_now=np.asarray(got)[i].tolist() if np.ndim(got) else repr(got),
+                    return (clause, step, dict(x=list(es[i]["x"]), query=qj, asked_at_step=j, now_at_step=step, value_now=np.asarray(got)[i].tolist() if np.ndim(got) else repr(got),
                                                spec=want[i].tolist(), note="distances: value is d, spec is cosh d" if qj.startswith("dist") else ""))
-            if not np.array_equal(np.asarray(given).reshape(len(es), -1), spec_c[:len(es)]):
-                return ("build.caller_array_unchanged", step, dict(x=list(xs[0]), given=spec_c[0].tolist(), array_now=np.asarray(given).reshape(len(es), -1)[0].tolist()))
+            for (arr, spec_arr, _) in arrays:
+                if not np.array_equal(np.asarray(arr).reshape(-1, spec_arr.shape[1]), spec_arr[:1] if unit else spec_arr):
+                    return ("build.caller_array_unchanged", step, dict(x=list(xs[0]), given=spec_arr[0].tolist(), array_now=np.asarray(arr).reshape(-1, spec_arr.shape[1])[0].tolist()))
         # the caller's coordinates still build the same point
+        es = cur["es"][:1] if unit else cur["es"]
         k = np.asarray(H.Point(given, model=chart).coords("klein"), float).reshape(len(es), -1)
         want = np.array([rat(e["vals"]["klein"]) for e in es])
-        ok = coords_equal("klein", k, want, tols)
+        ok = coords_equal("klein", k, want, cur["tols"][:len(es)])
         if not ok.all():
             i = int(np.nonzero(~ok)[0][0])
-            return ("build.same_array_same_point", len(qs), dict(x=list(xs[i]), got_klein=k[i].tolist(), spec_klein=want[i].tolist()))
+            return ("build.same_array_same_point", len(qs), dict(x=list(es[i]["x"]), got_klein=k[i].tolist(), spec_klein=want[i].tolist()))
         return None
 
     for (chart, qs), xs in sorted(groups.items()):
-        xs = sorted(xs)
+        xs = sorted(xs, key=lambda t: t[0])
         runs = [(xs, False)] + [([x], True) for x in rng.sample(xs, min(2, len(xs)))]
-        for sub, unit in runs:
+        for sub_at, unit in runs:
+            sub, ats = [t[0] for t in sub_at], [t[1] for t in sub_at]
             key = "history:n=%d:build=%s:%s:%s" % (n, chart, ",".join(qs), "unit:x=%s" % (list(sub[0]),) if unit else "array")
             run.case(key=key, action="history")
             try:
                 with np.errstate(all="ignore"):
-                    bad = execute(sub, chart, qs, unit)
+                    bad = execute(sub, chart, qs, unit, ats)
             except Exception as ex:
                 bad = ("raised:history", -1, dict(error="%s: %s" % (type(ex).__name__, ex)))
             run.evaluations += len(sub) * len(qs)
